@@ -62,6 +62,8 @@ class WAPProtocol(HTTPProtocol):
     def getrenderstr(self, entry: GopherEntry, url: str) -> str:
         if url.startswith("/"):
             url = self.waptop + url
+        # The link target goes into a double-quoted attribute (see http.py).
+        url = html.escape(url)
         retstr = ""
         if not entry.gettype() in ["i", "7"]:
             if self.accesskeyidx < len(accesskeys):
